@@ -2,7 +2,7 @@
    Model/Export.v = the two text/templates' output (tied by the "export" engine: byte-for-byte equality with the real
    ExportToCsv on every generated journal); read_all_s = Model/Csv.v, the model of the standard CSV reader.
    clean_trip: uid, trip id, route id, vehicle id, stop ids and tracks contain no comma, double quote, CR or LF. *)
-From GV Require Import Base.Prelude Base.Dec Model.Csv Model.Journal Model.Export Proofs.ExportProofs.
+From GV Require Import Base.Prelude Base.Dec Model.Csv Model.Journal Model.Export Proofs.ExportProofs Gen.Footprint.
 
 (* read back with a standard CSV reader, the trips table is the header plus exactly one row per journal trip, in order *)
 Theorem C20_trips_read_back : forall j, Forall clean_trip j ->
@@ -40,3 +40,20 @@ Example C20_example_bytes : export_stop_times ex_journal =
   String.concat (String "010" "") ["trip_uid,stop_id,track,arrival_time,departure_time,last_observed,marked_past";
      "1699978680_L..N,L03N,1,1699979100,,1699979000,"; "1699978680_L..N,L05N,,,,1699978900,1699979000"; ""].
 Proof. vm_compute. reflexivity. Qed.
+
+(* tie to the source: the two templates Model/Export.v renders, verbatim as they stand in journal/ now *)
+Example C20_template_sources : template_sources = [
+  ("journal/trips.csv.tmpl", "trip_uid,trip_id,route_id,direction_id,start_time,vehicle_id,last_observed,marked_past,num_updates,num_schedule_changes,num_schedule_rewrites
+{{ range . -}}
+{{ .TripUID }},{{ .TripID }},{{ .RouteID }},{{ FormatDirectionID .DirectionID }},{{ .StartTime.Unix }},{{ .VehicleID }},{{ .LastObserved.Unix }},{{ NullableUnix .MarkedPast }},{{ .NumUpdates }},{{ .NumScheduleChanges }},{{ .NumScheduleRewrites }}
+{{ end -}}
+");
+  ("journal/stop_times.csv.tmpl", "trip_uid,stop_id,track,arrival_time,departure_time,last_observed,marked_past
+{{ range $trip := . -}}
+{{- range .StopTimes -}}
+{{- $trip.TripUID }},{{ .StopID }},{{ NullableString .Track }},{{ NullableUnix .ArrivalTime }},{{ NullableUnix .DepartureTime }},{{ .LastObserved.Unix }},{{ NullableUnix .MarkedPast }}
+{{ end -}}
+{{ end -}}
+")
+].
+Proof. reflexivity. Qed.
